@@ -362,8 +362,30 @@ func (p *Path) applySpec(in ssa.Instruction, site string, spec *FuncSpec, what s
 		}
 	}
 	c2 := &SpecCtx{p: p, st: &p.st, old: &pre, vars: rvars, pkg: cpkg, closureCells: closureCells(callee, bvals)}
+	guard := ""
+	if spec.Guard != nil {
+		cg := &SpecCtx{p: p, st: &pre, old: nil, vars: vars, pkg: cpkg, closureCells: closureCells(callee, bvals)}
+		g, err := cg.EvalBool(spec.Guard.E)
+		if err != nil {
+			p.specError("guard of "+what, *spec.Guard, err)
+			guard = "false"
+		} else {
+			guard = g
+		}
+	}
 	for _, e := range spec.allEnsures() {
-		p.assumeClause(c2, e, "ensures of "+what)
+		if guard == "" {
+			p.assumeClause(c2, e, "ensures of "+what)
+			continue
+		}
+		t, err := c2.EvalBool(e.E)
+		if err != nil {
+			if !strings.HasPrefix(e.Label, "opt") {
+				p.specError("ensures of "+what, e, err)
+			}
+			continue
+		}
+		p.assume(fmt.Sprintf("(=> %s %s)", guard, t))
 	}
 
 	// dynamic dispatch refinement: if the receiver's dynamic type is a repo type whose method is under contract,
@@ -419,12 +441,27 @@ func (p *Path) dispatchFacts(what string, args []Val, res Val, resTy *types.Tupl
 		}
 		c := &SpecCtx{p: p, st: &p.st, old: pre, vars: vars, pkg: fn.Pkg.Pkg}
 		tag := env.typeTagOf(rt)
+		// the concrete contract applies to calls that meet its precondition
+		cp := &SpecCtx{p: p, st: pre, old: nil, vars: vars, pkg: fn.Pkg.Pkg}
+		ante := []string{fmt.Sprintf("(= (iface_type %s) %d)", args[0].T, tag)}
+		okPre := true
+		for _, r := range spec.allRequires() {
+			t, err := cp.EvalBool(r.E)
+			if err != nil {
+				okPre = false
+				break
+			}
+			ante = append(ante, t)
+		}
+		if !okPre {
+			continue
+		}
 		for _, e := range spec.allEnsures() {
 			t, err := c.EvalBool(e.E)
 			if err != nil {
 				continue
 			}
-			p.assume(fmt.Sprintf("(=> (= (iface_type %s) %d) %s)", args[0].T, tag, t))
+			p.assume(fmt.Sprintf("(=> (and %s) %s)", strings.Join(ante, " "), t))
 		}
 		env.assumptions["dispatch: dynamic type "+shortTypeName(rt)+" ==> contract of "+shortKey(key)] = true
 	}
@@ -963,12 +1000,14 @@ func (p *Path) poolCall(in ssa.Instruction, cc *ssa.CallCommon, method string) (
 		pf := env.fieldFnNamed("gfld_any_pooled")
 		bh := p.heap(env.memHeap(tBool))
 		p.assume(fmt.Sprintf("(select %s (%s %s))", bh, pf, item))
-		p.setOwned(item, "true")
+		// ... and is not an item this thread has checked out already
+		p.assume(fmt.Sprintf("(not %s)", p.ownedAt(item)))
+		p.setOwned(inv.Field, item, "true")
 		if pt, ok := it.Underlying().(*types.Pointer); ok {
 			if _, isSl := pt.Elem().Underlying().(*types.Slice); isSl {
 				arr := fmt.Sprintf("(sl.arr (select %s %s))", p.heap(env.memHeap(pt.Elem())), item)
-				p.assume(fmt.Sprintf("(or (= %s nil) (select %s (%s %s)))", arr, bh, pf, arr))
-				p.setOwned(arr, "true")
+				p.assume(fmt.Sprintf("(or (= %s nil) (and (select %s (%s %s)) (not %s)))", arr, bh, pf, arr, p.ownedAt(arr)))
+				p.setOwned(inv.Field, arr, "true")
 			}
 		}
 		p.siteGhosts(in, "after")
@@ -984,7 +1023,7 @@ func (p *Path) poolCall(in ssa.Instruction, cc *ssa.CallCommon, method string) (
 	} else {
 		p.oblige("pool.inv", site, "pool invariant holds for the item returned to the pool: "+inv.Src, t)
 	}
-	p.setOwned("(iface_ref "+x.T+")", "false")
+	p.setOwned(inv.Field, "(iface_ref "+x.T+")", "false")
 	p.siteGhosts(in, "after")
 	return Val{}, true
 }
